@@ -110,6 +110,20 @@ def h_sim_equal(ctx, skeleton, script, date, n=3, args=None, tz=None):
                     ref_val = dict(_entries(ref)).get(k) if isinstance(ref, ExplainableObjectDict) else ref
                     if ref_val is not None:
                         V.compare_phys(ctx, base_val, ref_val, f"not recomputed by the simulation => unchanged by the real update: {name}.{attr}")
+    # switching the simulation on installs the simulated values in the model: it then *is* the really-updated model
+    # (first hour), or at least no longer holds hours before the date; switching it off gives the baseline back
+    slots = [(a.modeling_obj_container.name, a.attr_name_in_mod_obj_container, a, b) for a, b in zip(vtr, rv)
+             if not isinstance(a, ExplainableObjectDict)]
+    sim.set_updated_values()
+    if date == "first":
+        names = {n for n, o in objs.items() if n in U and hasattr(o, "calculated_attributes")}
+        V.compare_systems(ctx, objs, U, "after set_updated_values(): model = really updated model", names=names)
+    else:
+        for oname, attr, a, b in slots:
+            ctx.require(getattr(objs[oname], attr) is b, f"{oname}.{attr}: after set_updated_values() the model holds the simulated twin")
+    sim.reset_values()
+    for oname, attr, a, b in slots:
+        ctx.require(getattr(objs[oname], attr) is a, f"{oname}.{attr}: after reset_values() the model holds the baseline value again")
 
 
 HARNESSES = {"sim_equal": h_sim_equal}
